@@ -190,6 +190,8 @@ class ExprMixin:
             return self.ex(sub)
         if ck in ('DerivedToBase', 'UncheckedDerivedToBase') and self.family(self.tyof(sub)) == 'atomic':
             return self.ex(sub)          # std::atomic<T> used through its __atomic_base: same model value          # library iterator compared through its base class: same model pointer
+        if ck in ('DerivedToBase', 'UncheckedDerivedToBase') and self.tyof(sub).strip_ref().kind == 'ptr' and self.tyof(n).strip_ref().kind == 'ptr':
+            return self.ex(sub)          # shared_ptr / weak_ptr used through their library base classes: the same model pointer
         raise LoweringError(f'no rule for cast kind {ck}')
 
     def explicit_cast(self, n):
